@@ -65,6 +65,14 @@ _ENGINE_ASSUME = ["the event stream's inbox order is the broadcast order (C01); 
                   "a subscriber stopping between the reachability test and the forward is a race outside the sequential model (it costs one dead letter, then the subscriber is dropped)"]
 
 PROPS = {
+    "C19": dict(lean_modules=["HW.Props.C19"],
+                streams=[dict(name="clustersys", pkg="cluster", test="TestVerifClusterSys", shrink_key="ops", timeout=2400, timeout_thorough=3400)],
+                rule="clustersys: 1-3 real Cluster/Agent instances on real engines wired by an in-memory bus (request/response immediate, Activation/Deactivation/ActorTopology for other nodes held and released "
+                     "after each operation in a seeded permutation replayed exactly by the model); seeded random quiescent histories of 3-10 ops: join, leave, Activate (select function = index into the candidates or nil), "
+                     "Deactivate, Cluster.Spawn over 2 kinds x 2 ids with arbitrary kind sets per node; after every op GetActiveByID/GetActiveByKind on every member and the spawn/stop log are compared; "
+                     "non-trivial = at least one successful activation; distinct = distinct inputs",
+                assumptions=["kind names contain no '/'", "member hosts are pairwise distinct", "a member advertises exactly the kinds registered on it", "a node that left does not rejoin in one history",
+                             "quiescent histories: every notification of an operation is delivered before the next operation"]),
     "C11": dict(lean_modules=["HW.Props.C11"],
                 streams=[dict(name="resp", pkg="actor", test="TestVerifResp", shrink_key="ops", timeout=1500)],
                 rule="resp: seeded random histories (2-10 ops) of Request / reply to any outstanding or finished request (zero, one, several replies) / Result with a short timeout on the real Engine, Registry and Response; "
@@ -139,7 +147,7 @@ PROPS = {
 # Properties without a check yet are listed here (kept current; see DESIGN.md section 7).
 _PENDING = "machinery for this property is not built yet in this revision (planned: Lean model + theorem + correspondence, see DESIGN.md section 4); not claimed until its check exists"
 # checks that exist but whose proofs are not complete yet are not claimed in MANIFEST.json
-NOT_READY = set()
+NOT_READY = {"C19"}
 NOT_APPLICABLE = {pid: _PENDING for pid in ["C%02d" % i for i in range(1, 21)] if pid not in PROPS or pid in NOT_READY}
 
 MANIFEST_TEXT = {
